@@ -31,18 +31,26 @@ CONSTANTS Model,    \* set of model ids (strings)
 \* the driver's models: m1, m2 share dataset d1 and differ in an initial estimate; m3 = m1 with another dataset
 DataOfDef == [m \in {"m1", "m2", "m3"} |-> IF m = "m3" THEN "d2" ELSE "d1"]
 ParamOfDef == [m \in {"m1", "m2", "m3"} |-> IF m = "m2" THEN "p2" ELSE "p1"]
+\* entries of the results log the driver stores with each model (string-sorted keys "0".."13" differ from positions above 10)
+LogLenOfDef == [m \in {"m1", "m2", "m3"} |-> IF m = "m1" THEN 11 ELSE IF m = "m2" THEN 14 ELSE 1]
 
 NoBind == [certain |-> TRUE, cands |-> {}, absentOK |-> TRUE]
-AbsInit == [committed |-> {}, interrupted |-> {}, bind |-> <<>>, logc |-> <<>>]
+AbsInit == [committed |-> {}, interrupted |-> {}, bind |-> <<>>, logc |-> <<>>, nlog |-> <<>>]
+\* number of entries of the log inside the modelfit results that were (last) stored for key m
+NLog(S, m) == IF m \in DOMAIN S.nlog THEN S.nlog[m] ELSE 0
 
 BindOf(S, n) == IF n \in DOMAIN S.bind THEN S.bind[n] ELSE NoBind
 SetBind(S, n, b) == [x \in (DOMAIN S.bind) \cup {n} |-> IF x = n THEN b ELSE S.bind[x]]
 
 \* equivalence of a retrieved entry with what was stored under key m:
 \* model function/parameters, dataset, ModelHash = key, results
-KeyContentOK(c, m) == /\ c.model = ParamOf[m] /\ c.data = DataOf[m]
-                      /\ c.hash = m /\ c.res = m
-Expected(m) == [model |-> ParamOf[m], data |-> DataOf[m], hash |-> m, res |-> m]
+\* model function/parameters, dataset, ModelHash = key, results; and the log that belongs to the stored results:
+\* c.rlog = for every retrieved log entry the position its (category, message) had in the stored log (0: not stored),
+\* so "in order and verbatim" is  c.rlog = <<1, 2, ..., n>>
+KeyContentOK(S, c, m) == /\ c.model = ParamOf[m] /\ c.data = DataOf[m]
+                         /\ c.hash = m /\ c.res = m
+                         /\ c.rlog = [i \in 1..NLog(S, m) |-> i]
+Expected(S, m) == [model |-> ParamOf[m], data |-> DataOf[m], hash |-> m, res |-> m, rlog |-> [i \in 1..NLog(S, m) |-> i]]
 
 NonOk(out) == out # "ok"
 IsErr(out) == out \notin {"ok", "crash", "pending", "notfound", "refused"}
@@ -58,11 +66,13 @@ StoreVerdict(S, m, out) ==
     ELSE IF m \in S.interrupted THEN (IF out = "pending" THEN "ok" ELSE "U")
     ELSE "I"     \* (I) a store of a model whose own stores were never interrupted must work
 
-StoreUpdate(S, m, n, d, out) ==
+\* k = number of entries of the results log of the entry that is stored
+SetNLog(S, m, k) == [x \in (DOMAIN S.nlog) \cup {m} |-> IF x = m THEN k ELSE S.nlog[x]]
+StoreUpdate(S, m, n, d, out, k) ==
     IF out = "ok"
-    THEN [S EXCEPT !.committed = @ \cup {m},
+    THEN [S EXCEPT !.committed = @ \cup {m}, !.nlog = SetNLog(S, m, k),
                    !.bind = SetBind(S, n, [certain |-> TRUE, cands |-> {<<m, d>>}, absentOK |-> FALSE])]
-    ELSE [S EXCEPT !.interrupted = @ \cup {m},
+    ELSE [S EXCEPT !.interrupted = @ \cup {m}, !.nlog = SetNLog(S, m, k),
                    !.bind = SetBind(S, n, [certain |-> FALSE,
                                           cands |-> BindOf(S, n).cands \cup {<<m, d>>},
                                           absentOK |-> BindOf(S, n).absentOK])]
@@ -72,9 +82,9 @@ StoreUpdate(S, m, n, d, out) ==
 
 RetrieveVerdict(S, m, out, c) ==
     IF m \in S.committed
-    THEN (IF out = "ok" /\ KeyContentOK(c, m) THEN "ok" ELSE "D")       \* (D)
+    THEN (IF out = "ok" /\ KeyContentOK(S, c, m) THEN "ok" ELSE "D")       \* (D)
     ELSE IF out \in {"notfound", "pending"} THEN "ok"
-    ELSE IF out = "ok" THEN (IF m \in S.interrupted /\ KeyContentOK(c, m) THEN "ok" ELSE "A")   \* (A)
+    ELSE IF out = "ok" THEN (IF m \in S.interrupted /\ KeyContentOK(S, c, m) THEN "ok" ELSE "A")   \* (A)
     ELSE IF m \in S.interrupted THEN "U" ELSE "A"
 
 -----------------------------------------------------------------------------
@@ -100,13 +110,15 @@ AnnVerdict(S, n, out, d) ==
     ELSE IF out = "notfound" THEN (IF b.absentOK THEN "ok" ELSE "L")
     ELSE "U"
 
-NameContentOK(c, n, x) == KeyContentOK(c, x[1]) /\ c.name = n /\ c.desc = x[2]
+ExpectedName(S, n, x) == [model |-> ParamOf[x[1]], data |-> DataOf[x[1]], hash |-> x[1], res |-> x[1],
+                          rlog |-> [i \in 1..NLog(S, x[1]) |-> i], name |-> n, desc |-> x[2]]
+NameContentOK(S, c, n, x) == KeyContentOK(S, c, x[1]) /\ c.name = n /\ c.desc = x[2]
 
 RetrieveNameVerdict(S, n, out, c) ==
     LET b == BindOf(S, n) IN
     IF b.cands = {} THEN (IF out = "notfound" THEN "ok" ELSE "A")
-    ELSE IF b.certain THEN (IF out = "ok" /\ \E x \in b.cands : NameContentOK(c, n, x) THEN "ok" ELSE "D")
-    ELSE IF out = "ok" THEN (IF \E x \in b.cands : NameContentOK(c, n, x) THEN "ok" ELSE "A")   \* no mixtures
+    ELSE IF b.certain THEN (IF out = "ok" /\ \E x \in b.cands : NameContentOK(S, c, n, x) THEN "ok" ELSE "D")
+    ELSE IF out = "ok" THEN (IF \E x \in b.cands : NameContentOK(S, c, n, x) THEN "ok" ELSE "A")   \* no mixtures
     ELSE IF out = "notfound" THEN (IF b.absentOK THEN "ok" ELSE "D")
     ELSE IF out = "pending" THEN "ok"
     ELSE "U"
